@@ -241,7 +241,13 @@ func RunCheck(o CheckOpts) (*CheckReport, error) {
 		timeout = 6
 		workers = 6
 	}
-	res, cres := DischargeAll(obls, covers, DischargeOpts{OutDir: outDir, TimeoutS: timeout, Race: race, Workers: workers, NoRetry: o.Fast})
+	knownNames := map[string]bool{}
+	for _, k := range LoadKnownFindings(filepath.Join(o.VerifDir, "known-findings.jsonl")).list {
+		if k.Status == "known" && k.Property == o.Prop {
+			knownNames[k.Obligation] = true
+		}
+	}
+	res, cres := DischargeAll(obls, covers, DischargeOpts{OutDir: outDir, TimeoutS: timeout, Race: race, Workers: workers, NoRetry: o.Fast, Known: knownNames})
 	rep.Results, rep.Covers = res, cres
 	rep.Obligations = len(res)
 	for _, r := range res {
